@@ -32,15 +32,24 @@ def networks(pv):
         spec('prophillneg', [A, B, C], {A: 1, B: 1, C: 1}, [hill('proportionalhillnegative', [], [C], 'k', 'K', 'n', B, A), ma([C], [A], 'k2')], P),
         spec('rational', [A, B], {A: 1, B: 1}, [gen([A], [B], ('/', ('*', ID('k'), ID(A)), ('+', ID('K'), ID(B)))), ma([B], [], 'k2')], P),
         spec('exponential', [A, B], {A: 1, B: 1}, [gen([], [B], ('*', ID('k'), ('exp', ('neg', ('*', NUM(0.3), ID(A)))))), ma([B], [A], 'k2')], P),
+        # an assignment rule whose target is read by a rate: the rate equations include the rule (chain rule through B = k2*A*A)
+        spec('ruled', [A, B, C], {A: 1, B: 1, C: 1}, [gen([], [C], ('/', ('*', ID('k'), ID(B)), ('+', ID('K'), ID(B)))), ma([A], [], 'k2'), ma([C], [A], 0.4)], P,
+             [dict(type='assignment', target=B, rhs=('*', ID('k2'), ('*', ID(A), ID(A))), freq='repeated')]),
+        # polynomial rates only: well defined on both sides of zero, evaluated at states closer to zero than the stencil width
+        spec('poly_near_zero', [A, B], {A: 1, B: 1}, [ma([A, A, B], [B], 'k'), ma([A], [B], 'k2'), gen([], [A], ('+', ID('K'), ('*', ID(A), ID(B))))], P),
     ]
 
 
 def rhs_fn(sp):
+    from ..ref import rules as RR
     S, Sd = crn.stoich(sp)
     species = sp['species']
 
     def f(x, P):
-        xd = dict(zip(species, x))
+        xd = dict(zip(species, [float(v) for v in x]))
+        if sp.get('rules'):
+            Pd = dict(sp['params']); Pd.update(P)
+            RR.apply(sp['rules'], xd, Pd, 0.0, 0.01, True)
         r = [crn.rate(sp, rx, xd, 'det', 1.0, 0.0, P) for rx in sp['reactions']]
         return np.array([sum((S[i][j] + Sd[i][j]) * r[j] for j in range(len(r))) for i in range(len(species))])
     return f
@@ -197,11 +206,12 @@ def run(ctx):
     for pv in pvs:
         for sp in networks(pv):
             ns = len(sp['species'])
-            for si, st in enumerate(itertools.product(SVALS, repeat=ns)):
+            vals = SVALS if sp['name'] != 'poly_near_zero' else [0.004, 0.015, 2.0]
+            for si, st in enumerate(itertools.product(vals, repeat=ns)):
                 items.append((sp, dict(zip(sp['species'], st))))
     pmap(check, items, ctx, nshards=256)
     ctx.bounds = dict(parameter_vectors=len(pvs), cases=len(items), h=H, methods=list(METHODS))
-    ctx.rule = ('E2: 13 smooth networks (mass action of order 1..4 with repeated reactants, four Hill families, rational and exponential '
+    ctx.rule = ('E2: 15 smooth networks (mass action of order 1..4 with repeated reactants, four Hill families, rational and exponential '
                 'general rates; 1..3 species) x states from {0.7,2,5.5}^n x parameter vectors from {0.1,1,3.2} (Hill exponents 1, 2, 2.5) x '
                 'every named parameter x the four difference schemes. Oracle: (1) the same stencil (h=0.01) applied to the reference rate '
                 'equations, 1e-7 relative - catches coefficients, signs, orientation, wrong column; (2) the analytic derivative (Richardson-'
